@@ -13,11 +13,56 @@ const char* RULE =
     "Gamma and source in closed form; scalars: manufactured target, decay with time-dependent rate, or constant rate + source; disabled terms "
     "return 1e6-scale poison. Oracle: every node, matrix and scalar within 1e-5 (1+|state|) of the exact solution (adaptive abs=rel=1e-10, or a "
     "fixed step count with truncation bound < 1e-8); Get_t = t_ini + dt; each enabled term was called for every (ix,index), only with indices in "
-    "range and times inside the step interval; a GSL failure on a supported combination is a violation. Non-trivial: some term enabled with "
+    "range and times inside the step interval; a GSL failure on a supported combination is a violation; in a quarter of the cases the fixed-step "
+    "convergence order is checked instead (halving the step must reduce the error by about 2^order for rk2/rk4/rkf45/rkck/rk8pd). Non-trivial: some term enabled with "
     "numerics on and every enabled term's first-order effect (|term| x duration) above 1e-3; distinct by digest of consumed bytes.";
 void harness_init() { quiet_gsl(); }
 
+// Convergence order of the fixed-step mode: halving the step must reduce the global error by about 2^order. This is a
+// metamorphic relation on the library's own results (both runs against the same exact solution) and needs no calibrated
+// accuracy bound; it is what exposes a right-hand side evaluated on a stale intermediate state.
+static void order_check(ByteSource& s, CaseInfo& ci) {
+  Problem p;
+  p.nx = 1 + (int)s.choose(2); p.d = 2 + (int)s.choose(3); p.nr = 1 + (int)s.choose(2); p.ns = (int)s.choose(2);
+  int stepper = (int)s.choose(5);
+  unsigned mask = (1 + s.choose(3)) | (p.ns ? M_GS : 0);  // coherent and/or damping terms, no sources
+  p.t_ini = s.flag() ? 0.0 : (double)s.range(-3, 3);
+  p.family = s.flag() ? FAM_CONSTANT : FAM_DIAGONAL; p.manufactured_scalar = false; p.g_timedep = true;
+  gen_problem_coeffs(s, p);
+  double dur = 0.6 + 0.4 * s.unif01();
+  static const unsigned base_steps[] = {300, 24, 16, 16, 4};
+  static const double min_ratio[] = {3.0, 10.0, 10.0, 10.0, 60.0};  // 2^2, 2^4, 2^4..5, 2^4..5, 2^8 with slack
+  std::vector<std::vector<double>> init;
+  for (int ix = 0; ix < p.nx; ix++) for (int ir = 0; ir < p.nr; ir++) { std::vector<double> c(p.d * p.d); for (auto& x : c) x = 0.3 + s.dense(); init.push_back(c); }
+  ld err[2];
+  for (int pass = 0; pass < 2; pass++) {
+    TSolver S(p);
+    S.set_mask(mask, 0);
+    S.Set_GSL_step(STEPPERS[stepper]); S.Set_AdaptiveStep(false); S.Set_NumSteps(base_steps[stepper] << pass);
+    S.Set_rel_error(1e-2); S.Set_abs_error(1e-2); S.Set_h(1e-3);  // loose: GSL rejects a fixed step whose error estimate exceeds the tolerances
+    size_t q = 0;
+    for (int ix = 0; ix < p.nx; ix++) { for (int ir = 0; ir < p.nr; ir++, q++) for (int k = 0; k < p.d * p.d; k++) S.rho(ix, ir)[k] = init[q][k]; for (int is = 0; is < p.ns; is++) S.scalar(ix, is) = 1.0; }
+    try { S.Evolve(dur); } catch (const std::exception& e) { throw Fail(fmt("C04|Evolve|throws|%s-fixed", STEPPER_NAMES[stepper]), fmt("order check: exception '%s'", e.what())); }
+    ld t1 = (ld)S.Get_t(), worst = 0; q = 0;
+    for (int ix = 0; ix < p.nx; ix++) {
+      for (int ir = 0; ir < p.nr; ir++, q++) worst = std::max(worst, maxabs(toM(S.rho(ix, ir)) - p.exact_rho(ix, ir, toM(init[q], p.d), p.t_ini, t1, mask)));
+      for (int is = 0; is < p.ns; is++) worst = std::max(worst, fabsl((ld)S.scalar(ix, is) - p.exact_scalar(ix, is, 1.0, p.t_ini, t1, mask)));
+    }
+    err[pass] = worst;
+  }
+  std::string desc = fmt("order check %s: nsun=%d nx=%d nrhos=%d nscalars=%d mask=%u family=%d dt=%.6g steps %u -> %u: error %.3Lg -> %.3Lg", STEPPER_NAMES[stepper], p.d, p.nx, p.nr, p.ns, mask, p.family, dur,
+                         base_steps[stepper], base_steps[stepper] * 2, err[0], err[1]);
+  ci.sample = desc; ci.label(fmt("order-%s", STEPPER_NAMES[stepper]));
+  if (err[0] > 1e-9L && err[1] > 1e-13L) {
+    ld ratio = err[0] / err[1];
+    ci.nontrivial = true;
+    ci.ratio(fmt("order-%s(min-ratio/observed)", STEPPER_NAMES[stepper]), (double)(min_ratio[stepper] / ratio));
+    CHECK(ratio >= min_ratio[stepper], fmt("C04|fixed-step-convergence-order|%s", STEPPER_NAMES[stepper]), "halving the step reduced the error only by %.3Lg (expected >= %.3g) :: %s", ratio, min_ratio[stepper], desc.c_str());
+  } else ci.label("order-check-at-rounding-floor");
+}
+
 void run_case(ByteSource& s, CaseInfo& ci) {
+  if (s.choose(4) == 3) { order_check(s, ci); return; }
   Problem p;
   p.nx = 1 + (int)s.choose(4); p.d = gen_dim(s); p.nr = 1 + (int)s.choose(3); p.ns = (int)s.choose(4);
   unsigned mask = s.choose(32);
